@@ -915,6 +915,30 @@ func RunWorkloads(specs []WorkloadSpec, parallel int, timeout time.Duration) []W
 
 func init() { childFuncs["workload"] = workloadChild }
 
+// workloadWarmUp builds a platform of the spec's type, runs a small vectoradd on it and terminates it.
+func workloadWarmUp(spec WorkloadSpec, dir string) {
+	s := simulation.MakeBuilder().WithoutMonitoring().WithOutputFileName(filepath.Join(dir, "akita_warm")).Build()
+	numGPUs := spec.GPUs[len(spec.GPUs)-1]
+	a := archOf(spec.Arch)
+	if spec.Timing {
+		sampling.InitSampledEngine()
+		gt := spec.GPUType
+		if gt == "" {
+			gt = "r9nano"
+		}
+		timingconfig.MakeBuilder().WithSimulation(s).WithNumGPUs(numGPUs).WithGPUType(gt).Build()
+	} else {
+		emusystem.MakeBuilder().WithSimulation(s).WithNumGPUs(numGPUs).WithArchitecture(a).Build()
+	}
+	drv := s.GetComponentByName("Driver").(*driver.Driver)
+	def := benchByName("vectoradd")
+	b := def.build(drv, a, cloneParams(def.sizes[0]))
+	b.SelectGPU([]int{1})
+	drv.Run()
+	b.Run()
+	drv.Terminate()
+}
+
 func workloadChild(args []string) {
 	if len(args) < 2 {
 		os.Exit(2)
@@ -953,6 +977,16 @@ func workloadChild(args []string) {
 		spec.GPUs = []int{1}
 	}
 	log.SetFlags(log.Lshortfile)
+
+	// --- optional warm-up (Knobs["warm"]): a complete small simulation (same platform type, vectoradd)
+	// run to the end in THIS process before the measured one; a run must not depend on what ran
+	// earlier in the same process (property C05)
+	if spec.Knobs["warm"] != 0 {
+		if f := catchMsg(func() { workloadWarmUp(spec, dir) }); f != "" {
+			res.Counters["warm_fault"] = 1
+		}
+		res.Counters["warm"] = 1
+	}
 
 	// --- platform, as Runner.Init does
 	bld := simulation.MakeBuilder().WithoutMonitoring().WithOutputFileName(filepath.Join(dir, "akita_sim"))
